@@ -2,6 +2,7 @@
   C07 lemmas, part 3: syntactic equality, mutual exclusion of alternatives.
 -/
 import SoupVerif.Lemmas.RegexCost.First
+set_option autoImplicit false
 namespace SoupVerif
 namespace Rx
 
@@ -196,8 +197,8 @@ theorem leafStrip_sound (env : CharEnv) (s : Str) (x y x' y' : Rx)
     · simp at h
   · simp at h
 
-theorem excl_sound (env : CharEnv) (ok : EnvOK env) (s : Str) :
-    ∀ fuel x y, excl fuel x y = true →
+theorem excl_sound {sp : Specials} (env : CharEnv) (ok : EnvOK sp env) (s : Str) :
+    ∀ fuel x y, excl sp fuel x y = true →
       ∀ i e1 e2, e1 ∈ ends env s x i → e2 ∈ ends env s y i → False := by
   intro fuel
   induction fuel with
